@@ -270,18 +270,31 @@ def mk_int_model(maxlen):
   return o_int_model
 
 
-def mk_serials_irrelevant(name, args=()):
+def truncate_side_chain(txt, resnum):
+    return '\n'.join(l for l in txt.split('\n') if l and not (l[:4] == 'ATOM' and int(l[22:26]) == resnum and l[12:16].strip() not in ('N', 'CA', 'C', 'O', 'CB'))) + '\n'
+
+
+def mk_serials_irrelevant(name, args=(), truncated_model=None):
     def body(ctx):
         """atom serial numbers never influence predictions: the whole pipeline on a structure whose serials are
         replaced (descending, all equal, shuffled, in the hybrid-36 range, shifted by a symbolic offset) gives
         the results of the structure as numbered in the file"""
         import random
         from . import micro as M
-        scheme = ctx.choice('numbering', ['descending', 'all-equal', 'shuffled-1', 'shuffled-2', 'hybrid36-range', 'interleaved'])
+        text = M.text(name)
+        schemes = ['descending', 'all-equal', 'shuffled-1', 'shuffled-2', 'hybrid36-range', 'interleaved']
+        if truncated_model is not None:
+            # two MODELs, the second lacks the side chain of one residue (it is topped up from the first); numbering
+            # continued through the file, or restarting in every MODEL as NMR ensembles are often written
+            text = M.models(text, truncate_side_chain(text, truncated_model))
+            schemes = ['continued', 'restart-per-model'] + schemes
+        scheme = ctx.choice('numbering', schemes)
         off = ctx.int('offset', 0, 90000)
-        base = M.run(M.text(name), args=list(args))
+        base = M.run(text, args=list(args))
         counter = [0]
-        n_atoms = len([l for l in M.text(name).split('\n') if l[:6] in ('ATOM  ', 'HETATM')])
+        atom_lines = [l for l in text.split('\n') if l[:6] in ('ATOM  ', 'HETATM')]
+        n_atoms = len(atom_lines)
+        n_first = len([l for l in M.text(name).split('\n') if l[:6] in ('ATOM  ', 'HETATM')])
         perm = list(range(n_atoms))
         if scheme.startswith('shuffled'):
             random.Random(int(scheme[-1])).shuffle(perm)
@@ -289,15 +302,20 @@ def mk_serials_irrelevant(name, args=()):
         def tr(a):
             i = counter[0]
             counter[0] += 1
-            v = {'descending': n_atoms - i, 'all-equal': 7, 'hybrid36-range': 100000 + 3 * (n_atoms - i), 'interleaved': (i % 2) * 1000 + i // 2}.get(scheme)
+            v = {'descending': n_atoms - i, 'all-equal': 7, 'hybrid36-range': 100000 + 3 * (n_atoms - i), 'interleaved': (i % 2) * 1000 + i // 2,
+                 'continued': i + 1, 'restart-per-model': (i if i < n_first else i - n_first) + 1}.get(scheme)
             if v is None:
                 v = perm[i] + 1
             a.numb = v + off
-        other = M.run(M.text(name), args=list(args), transform=tr)
-        M.compare_heavy(ctx, 'serials', base, other)
-        M.compare_results(ctx, 'serials', base, other)
-        gb, go = M.groups(base), M.groups(other)
-        ctx.claim('same-group-types', sorted(gb) == sorted(go), detail='%r vs %r' % (sorted(gb), sorted(go)))
+        other = M.run(text, args=list(args), transform=tr)
+        ctx.claim('same-conformations', list(base.conformation_names) == list(other.conformation_names))
+        for conf in list(base.conformation_names) + ['AVR']:
+            ctx.claim('same-atoms[%s]' % conf, sorted(M.akey(a) for a in base.conformations[conf].atoms) == sorted(M.akey(a) for a in other.conformations[conf].atoms),
+                      detail='%d vs %d atoms' % (len(base.conformations[conf].atoms), len(other.conformations[conf].atoms)))
+            M.compare_heavy(ctx, 'serials', base, other, conf)
+            M.compare_results(ctx, 'serials', base, other, conf)
+            gb, go = M.groups(base, conf), M.groups(other, conf)
+            ctx.claim('same-group-types', sorted(gb) == sorted(go), detail='%r vs %r' % (sorted(gb), sorted(go)))
     return body
 
 
@@ -319,6 +337,12 @@ def obligations(tier):
                                     'propka/conformation_container.py:ConformationContainer.sort_atoms'],
                               bounds='micro-structure %s with its serial numbers replaced by 6 numbering schemes plus a symbolic offset in [0, 90000]' % name,
                               claim_doc='bonds, groups (incl. ligand group types), pKa values and determinants identical to the run on the file as numbered', max_paths=5000))
+    for name, res in ([('pair_GLU_ARG_TYR', 57)] if tier == 'quick' else [('pair_GLU_ARG_TYR', 57), ('pair_GLU_ARG_TYR', 35), ('pep8', 29), ('pair_ASP_ARG', 87)]):
+        obs.append(Obligation('O3-serials-never-influence[%s,MODEL2 lacks side chain %d]' % (name, res), mk_serials_irrelevant(name, truncated_model=res),
+                              code=['propka/atom.py:Atom.set_properties (numb)', 'propka/conformation_container.py:ConformationContainer.top_up_from_atoms', 'propka/molecular_container.py:MolecularContainer.top_up_conformations',
+                                    'propka/run.py:single (whole pipeline)'],
+                              bounds='two-MODEL file from %s, MODEL 2 without the side chain of residue %d; 8 numbering schemes (continued, restarting per MODEL, ...) plus a symbolic offset in [0, 90000]' % (name, res),
+                              claim_doc='atoms after topping up, bonds, groups, pKa values and determinants identical in every conformation and in the average', max_paths=5000))
     maxlen = 3 if tier == 'quick' else 5
     for L in range(0, maxlen + 1):
         obs.append(Obligation('O2-reject-len%d' % L, mk_reject(L), code=code,
